@@ -3,7 +3,9 @@ package worlds
 import (
 	"context"
 	"fmt"
+	"os"
 	"sort"
+	"strings"
 
 	"go.temporal.io/server/api/adminservice/v1"
 	"go.temporal.io/server/client/history"
@@ -59,7 +61,40 @@ type Result struct {
 // noopLoggers implements logging.LoggerProvider without output.
 type noopLoggers struct{}
 
-func (noopLoggers) Get(logging.LogComponentName) log.Logger       { return log.NewNoopLogger() }
+func (noopLoggers) Get(logging.LogComponentName) log.Logger {
+	if os.Getenv("VSIM_PROXYLOG") != "" {
+		return printLogger{}
+	}
+	return log.NewNoopLogger()
+}
+
+// curSim is the simulation of the run in progress (one run at a time per process).
+var curSim *simrt.Sim
+
+// printLogger copies the proxy's own log lines into the trace when VSIM_PROXYLOG is set
+// (debugging of a replay only: it changes the trace hash, but adds no scheduling point and
+// draws nothing from the tape, so the schedule replays unchanged).
+type printLogger struct{ tags []tag.Tag }
+
+func (p printLogger) out(lvl, msg string, tags []tag.Tag) {
+	var sb strings.Builder
+	for _, t := range append(append([]tag.Tag(nil), p.tags...), tags...) {
+		fmt.Fprintf(&sb, " %s=%v", t.Key(), t.Value())
+	}
+	if curSim != nil {
+		curSim.Log("L %s %s%s", lvl, msg, sb.String())
+	}
+}
+func (p printLogger) Debug(msg string, tags ...tag.Tag)  { p.out("debug", msg, tags) }
+func (p printLogger) Info(msg string, tags ...tag.Tag)   { p.out("info", msg, tags) }
+func (p printLogger) Warn(msg string, tags ...tag.Tag)   { p.out("warn", msg, tags) }
+func (p printLogger) Error(msg string, tags ...tag.Tag)  { p.out("error", msg, tags) }
+func (p printLogger) DPanic(msg string, tags ...tag.Tag) { p.out("dpanic", msg, tags) }
+func (p printLogger) Panic(msg string, tags ...tag.Tag)  { p.out("panic", msg, tags) }
+func (p printLogger) Fatal(msg string, tags ...tag.Tag)  { p.out("fatal", msg, tags) }
+func (p printLogger) With(tags ...tag.Tag) log.Logger {
+	return printLogger{tags: append(append([]tag.Tag(nil), p.tags...), tags...)}
+}
 func (n noopLoggers) With(tags ...tag.Tag) logging.LoggerProvider { return n }
 
 // adminClient is the stand-in AdminServiceClient handed to the proxy. Only stream
